@@ -78,7 +78,7 @@ def main(tier, seed, workers):
         except Violation as v:
             ctx.report(v, replay_case)
     flist = fonts_for(tier)
-    rounds = 25 if tier == 'quick' else 400
+    rounds = 90 if tier == 'quick' else 400
     # one process per group of fonts; each process is itself multi-threaded (2..8), so use fewer processes than cores
     groups = [flist[i::max(1, workers // 3)] for i in range(max(1, workers // 3))]
     jobs = [(seed * 100 + k + 1, rounds, g) for k, g in enumerate(groups) if g]
